@@ -235,7 +235,10 @@ func parseInto(result *Version, input string) error {
 		result.Version = result.Version[:hyphen]
 	}
 
-	if len(result.Version) > 0 && !unicode.IsDigit(rune(result.Version[0])) {
+	if len(result.Version) == 0 {
+		return fmt.Errorf("upstream version is empty")
+	}
+	if !unicode.IsDigit(rune(result.Version[0])) {
 		return fmt.Errorf("version number does not start with digit")
 	}
 
